@@ -642,8 +642,8 @@ impl Check for C10 {
             real: &["h3 client/server send paths (send_request, send_response, send_trailers) and receive paths (resolve_request incl. the automatic 431, recv_response, recv_trailers)", "h3 qpack stateless codec size accounting", "settings application via the connection driver"],
             stub: &["QUIC transport (SimQuic, with a first-write probe that samples the applied peer settings)", "executor (simexec)", "reference peer (script, reference codecs)", "applications"],
             assumptions: &["the limit in force for a send is the applied peer setting at the moment h3 hands the HEADERS frame to the transport (its send_data call, sampled by the simulator); SETTINGS that are applied while that write is blocked cannot be honoured any more; for a refusal it is the value after the call (settings only ever change from the default to the advertised value)", "limits above 200000 are only exercised on the accept side"],
-            quick_runs: 100_000,
-            thorough_runs: 5_000_000,
+            quick_runs: 700_000,
+            thorough_runs: 28_000_000,
         }
     }
     fn run(&self, ctx: &RunCtx) -> RunOut {
